@@ -90,13 +90,20 @@ static int dirty_cb(struct chan *chan, void *arg) { (void) arg; cb_calls++; cb_c
 
 static const char *opname[] = { "chan_push", "chan_pop", "chan_read", "chan_set", "chan_flush" };
 
+static char detail[160];
 static int bad(const char *what, long got, long want)
 {
-	printf("REPRODUCED %s: %s is %ld, specified %ld (type=%d n=%d dirty=%d dw=%d ad=%d id=%d cbnull=%d cbret=%d "
-		"v=(%ld,%ld) last=(%ld,%ld) top=(%ld,%ld))\n", opname[REPLAY_OP], what, got, want,
+	printf("REPRODUCED %s: %s is %ld, specified %ld%s (type=%d n=%d dirty=%d dw=%d ad=%d id=%d cbnull=%d cbret=%d "
+		"v=(%ld,%ld) last=(%ld,%ld) top=(%ld,%ld))\n", opname[REPLAY_OP], what, got, want, detail,
 		(int) (W_TYPE), (int) (W_N), (int) (W_DIRTY), (int) (W_DW), (int) (W_AD), (int) (W_ID), (int) (W_CBNULL),
 		(int) (W_CBRET), (long) (W_VT), (long) (W_VI), (long) (W_LAST_T), (long) (W_LAST_I), (long) (W_TOP_T), (long) (W_TOP_I));
 	return 1;
+}
+
+static int badv(const char *what, struct value got, struct value want)
+{
+	snprintf(detail, sizeof(detail), " [got (type %ld, %ld), specified (type %ld, %ld)]", (long) got.type, (long) got.i, (long) want.type, (long) want.i);
+	return bad(what, (long) got.i, (long) want.i);
 }
 
 /* complete comparison of the channel with its specified post-state (everything but is_dirty) */
@@ -106,17 +113,16 @@ static int same_chan(const struct chan *c, const struct chan *e)
 	for (int p = 0; p < CHAN_MAXPROP; p++)
 		if (c->prop[p] != e->prop[p]) return bad("a channel property", c->prop[p], e->prop[p]);
 	if (c->dirty_cb != e->dirty_cb || c->dirty_arg != e->dirty_arg) return bad("dirty callback changed", 1, 0);
-	if (!veq(c->last_value, e->last_value)) return bad("last_value", (long) c->last_value.i, (long) e->last_value.i);
+	if (!veq(c->last_value, e->last_value)) return badv("last_value", c->last_value, e->last_value);
 	if (strcmp(c->name, e->name) != 0) return bad("channel name changed", 1, 0);
 	if (e->type == CHAN_STACK) {
 		if (c->data.stack.n != e->data.stack.n) return bad("stack depth", c->data.stack.n, e->data.stack.n);
 		for (int j = 0; j < MAX_CHAN_STACK; j++)
 			if (!veq(c->data.stack.values[j], e->data.stack.values[j])) {
-				printf("(cell %d) ", j);
-				return bad("stack cell value", (long) c->data.stack.values[j].i, (long) e->data.stack.values[j].i);
+				return badv("stack cell", c->data.stack.values[j], e->data.stack.values[j]);
 			}
 	} else if (!veq(c->data.value, e->data.value)) {
-		return bad("channel value", (long) c->data.value.i, (long) e->data.value.i);
+		return badv("channel value", c->data.value, e->data.value);
 	}
 	return 0;
 }
@@ -202,8 +208,7 @@ int main(void)
 	if (cb_calls != want_cb) return bad("number of dirty-callback calls", cb_calls, want_cb);
 	if (cb_calls && cb_chan != &c) return bad("dirty callback got another channel", 1, 0);
 	if (op == 2) {
-		if (!veq(out, shown)) { printf("(type %ld, specified %ld) ", (long) out.type, (long) shown.type);
-			return bad("value read", (long) out.i, (long) shown.i); }
+		if (!veq(out, shown)) return badv("value read", out, shown);
 		if (same_chan(&c, &pre) || c.is_dirty != pre.is_dirty) { printf("REPRODUCED chan_read: modified the channel\n"); return 1; }
 	} else if (op == 4) {
 		if (c.is_dirty != 0) return bad("is_dirty after flush", c.is_dirty, 0);
